@@ -9,13 +9,21 @@ def member(desc, tier, seed):
     return decode.decode_member(desc, tier, seed, props=('C01','C14'), encoders=('FAST',))
 
 
+def cross(payload, tier, seed):
+    from bounded import enumchecks
+    return enumchecks.cross_member(payload, tier, seed)
+
+
 def run(tier='quick', seed=0):
     members = corpus(FAMILIES, tier)
     results = harness.run_pool('bounded.drivers.C14', 'member', members, tier, seed)
+    # valid vectors stay valid whatever other fast-encoder processors have served in the same process
+    from bounded.drivers.C05 import CROSS
+    results += harness.run_pool('bounded.drivers.C14', 'cross', [(a, b_, 'FAST') for a, b_ in CROSS], tier, seed)
     return harness.aggregate(
         results,
         rule='one evaluation = one contract clause on one (graph, encoder, vector); non-trivial = distinct '
              '(graph, encoder, corrected vector) that was decoded',
-        bound=bound_text(FAMILIES) + ' x selection-choice encoders as listed in member()',
+        bound=bound_text(FAMILIES) + ' x selection-choice encoders as listed in member(); 4 graph pairs: a fast-encoder processor of another graph with the same variables serves all its decodes first (fresh interpreter per pair)',
         assumptions=['reference semantics (bounded/specsem.py) is the statement\'s semantics; validated against the '
                      'documented example of docs/theory.md which is a corpus member'])
